@@ -32,6 +32,9 @@ const Prop = "C19"
 type plan struct {
 	replica.Plan
 	desc string
+	// genesisTime: the new chain is started with the ORIGINAL genesis time (what an exported genesis
+	// file carries) instead of the time of the last block
+	genesisTime bool
 }
 
 func plans(tier string, tmpl []replica.Template, nBase int) []plan {
@@ -43,20 +46,20 @@ func plans(tier string, tmpl []replica.Template, nBase int) []plan {
 		}
 		return strings.Join(ns, ">")
 	}
-	out = append(out, plan{replica.Plan{Blocks: [][]int{{}}, Tail: 2}, "idle"})
+	out = append(out, plan{replica.Plan{Blocks: [][]int{{}}, Tail: 2}, "idle", false})
 	for i := 0; i < len(tmpl); i++ {
 		tail := 1
 		if i >= nBase {
 			tail = 5
 		}
-		out = append(out, plan{replica.Plan{Blocks: [][]int{{i}}, Tail: tail}, name(i)})
+		out = append(out, plan{replica.Plan{Blocks: [][]int{{i}}, Tail: tail}, name(i), false})
 		// export in the middle of things too: right after the block carrying the template
-		out = append(out, plan{replica.Plan{Blocks: [][]int{{i}}, Tail: 0}, name(i) + "|export-at-once"})
+		out = append(out, plan{replica.Plan{Blocks: [][]int{{i}}, Tail: 0}, name(i) + "|export-at-once", false})
 	}
 	for i := 0; i < nBase; i++ {
 		for j := 0; j < nBase; j++ {
 			if tier == "thorough" || (i*7+j)%4 == 0 || curated[tmpl[i].Name+">"+tmpl[j].Name] {
-				out = append(out, plan{replica.Plan{Blocks: [][]int{{i}, {j}}, Tail: 1}, name(i, j)})
+				out = append(out, plan{replica.Plan{Blocks: [][]int{{i}, {j}}, Tail: 1}, name(i, j), false})
 			}
 		}
 	}
@@ -67,9 +70,9 @@ func plans(tier string, tmpl []replica.Template, nBase int) []plan {
 			if tier != "thorough" && k%2 == 0 && k != len(c.Blocks) {
 				continue
 			}
-			out = append(out, plan{replica.Plan{Blocks: c.Blocks[:k], Tail: 0}, fmt.Sprintf("%s|export-after-block-%d", c.Name, k)})
+			out = append(out, plan{replica.Plan{Blocks: c.Blocks[:k], Tail: 0}, fmt.Sprintf("%s|export-after-block-%d", c.Name, k), false})
 		}
-		out = append(out, plan{replica.Plan{Blocks: c.Blocks, Tail: 2}, c.Name})
+		out = append(out, plan{replica.Plan{Blocks: c.Blocks, Tail: 2}, c.Name, false})
 	}
 	if tier == "thorough" {
 		// rich states: a long chain of many templates
@@ -81,7 +84,14 @@ func plans(tier string, tmpl []replica.Template, nBase int) []plan {
 		for _, i := range all {
 			blocks = append(blocks, []int{i})
 		}
-		out = append(out, plan{replica.Plan{Blocks: blocks, Tail: 2}, "all-templates-chain"})
+		out = append(out, plan{replica.Plan{Blocks: blocks, Tail: 2}, "all-templates-chain", false})
+	}
+	n := len(out)
+	for i := 0; i < n; i++ {
+		c := out[i]
+		c.genesisTime = true
+		c.desc += "|import@genesis-time"
+		out = append(out, c)
 	}
 	return out
 }
@@ -188,6 +198,9 @@ func Worker(shard, n int, tier string) *engine.Result {
 			vals = append(vals, tmtypes.TM2PB.ValidatorUpdate(&tmtypes.Validator{Address: gv.Address, PubKey: gv.PubKey, VotingPower: gv.Power}))
 		}
 		lastTime := wa.Header.Time // time of the block A has begun; the export is of the block before
+		if p.genesisTime {
+			lastTime = world.GenesisTime
+		}
 		panicked := ""
 		func() {
 			defer func() {
